@@ -936,6 +936,39 @@ fn static_variants(r: &mut Rng) -> (&'static str, String) {
     }
 }
 
+const ROW_STAGES: &[&str] = &["where n > 1", "fields k, n", "n + 1 as m", "limit 3", "parse \"*\" from k as kk", "split(k) on \",\" as parts", "where isNull(k) or n < 5"];
+const AGG_STAGES: &[&str] = &["count", "count by k", "sum(n) as s", "count, avg(n) by k", "count_distinct(k)", "p50(n) by k", "min(n), max(n)", "count as c by k, n"];
+const POST_STAGES: &[&str] = &["sort by k", "limit 2", "sort by k desc | limit 1", "where 1 == 1", "fields except k"];
+
+/// a rule-breaking stage from the table or the generator, surrounded by valid stages
+fn embedded_static(r: &mut Rng) -> (&'static str, String) {
+    let (what, q) = if r.below(3) == 0 {
+        let (w, q) = STATIC_ERRORS[r.below(STATIC_ERRORS.len())];
+        (w, q.to_string())
+    } else {
+        static_variants(r)
+    };
+    let bad = q.strip_prefix("* | json | ").or(q.strip_prefix("* | ")).unwrap_or("limit 0").to_string();
+    let mut stages: Vec<String> = vec!["json".to_string()];
+    for _ in 0..r.below(3) {
+        stages.push(r.pick(ROW_STAGES).to_string());
+    }
+    if r.below(4) == 0 {
+        stages.push(r.pick(AGG_STAGES).to_string());
+    }
+    stages.push(bad);
+    let after = 1 + r.below(3);
+    for i in 0..after {
+        let s = match r.below(4) {
+            0 => r.pick(POST_STAGES).to_string(),
+            1 if i == 0 => r.pick(ROW_STAGES).to_string(),
+            _ => r.pick(AGG_STAGES).to_string(),
+        };
+        stages.push(s);
+    }
+    (what, format!("* | {}", stages.join(" | ")))
+}
+
 /* ---------- (e) subprocess ---------- */
 
 pub const AGRIND: &str = "/verif/harness/target/agrind-bin/debug/agrind";
@@ -1268,6 +1301,27 @@ pub fn check(ctx: &mut Ctx) {
             rep.fail(ctx, "static-generated", &q, "C04/static-error-not-rejected", &format!("documented static error not rejected cleanly: {}", what), info);
         } else {
             ctx.case("static-generated", &q, "pass", info);
+        }
+    }
+    // (d') a statically invalid stage anywhere in a longer pipeline: valid stages before it and
+    // after it (aggregates included) must not make the query acceptable
+    let nemb = ctx.budget(900, 20000);
+    for _ in 0..nemb {
+        let mut r = ctx.rng.fork();
+        let (what, q) = embedded_static(&mut r);
+        let c = super::common::run_both(ctx, &q, b"");
+        let info = serde_json::json!({"query": q, "rule": what, "query_hex": enc::hex(&q)});
+        if c.imp.compiled || c.imp.panicked.is_some() || c.imp.hung {
+            rep.fail(ctx, "static-embedded", &q, "C04/static-error-not-rejected", &format!("documented static error not rejected once other stages surround it: {}", what), info);
+            continue;
+        }
+        match super::common::compare(&c, true) {
+            super::common::F::Disagree(why) => {
+                let mut i = info.clone();
+                i["why"] = serde_json::json!(why);
+                ctx.case("F:static-embedded", &q, "fdis", i);
+            }
+            _ => ctx.case("static-embedded", &q, "pass", info),
         }
     }
     let n = ctx.budget(6000, 400000);
